@@ -325,6 +325,15 @@ class FilesystemLayout(_BaseLayout[_MaildirT]):
 
     """
 
+    @classmethod
+    def _split(cls, name: str, delimiter: str) -> _Parts:
+        parts = super()._split(name, delimiter)
+        for part in parts:
+            if part in ('new', 'cur', 'tmp'):
+                # would be a message sub-directory of the parent folder
+                raise FileNotFoundError(name)
+        return parts
+
     def _get_path(self, parts: _Parts) -> str:
         return os.path.join(self._path, *parts)
 
